@@ -1,4 +1,4 @@
-HOOK_COMMITS = ["27ad88b", "955c941", "4436111", "27d3bdc", "cfd1fa3"]
+HOOK_COMMITS = ["27ad88b", "955c941", "4436111", "27d3bdc", "cfd1fa3", "16566ab"]
 NOTES = ("Machine-checked proof in Lean 4 over a hand-written executable model of go-jsonrpc, tied to /repo on every run by "
          "(a) facts regenerated from the Go source with obligations re-checked by Lean and (b) a correspondence harness that "
          "runs the real library and the model's executable definitions on the same cases / replays implementation traces "
@@ -182,6 +182,30 @@ CHECKS = [
   "design_ref": "DESIGN.md §6 C18",
   "note": TB + " PARTIAL: completion = safety form + fairness; observed with time-outs.",
   "technique": "Lean 4 theorems (exit-path enabledness, post-exit invariant) + regenerated skeleton facts + hook-trace inclusion + gated closes"},
+ {"property_id": "C06",
+  "text": "Theorems over the server-role model (handler contexts derived from the connection context, the handling map, cancel frames, "
+          "done(keepCtx), the sweep, connection end): executing xrpc.cancel [id] cancels exactly the handler registered under id and changes "
+          "no other handler, registration or connection state; in every reachable state a handler that sees its context cancelled while its "
+          "connection is up was cancelled by a cancel frame carrying its own id, or returned without keeping its context, or was swept — "
+          "nothing else; hence handlers whose id never appeared in a cancel frame stay live; a call that keeps its context (subscription) stays "
+          "registered after its handler returned. Tie: regenerated skeletons of handleCall/cancelCtx/handleCtxAsync/doRequest + scenarios "
+          "(subsets cancelled at four instants, a second connection, HTTP abort) whose server-connection hook traces are replayed through the "
+          "model and compared with the contexts captured inside the real handlers.",
+  "design_ref": "DESIGN.md §6 C06",
+  "note": TB + " HTTP cancellation is net/http's; honest-peer hypothesis for 'only if the caller cancelled'.",
+  "technique": "Lean 4 theorems (frame lemma + cause invariant by induction over events) + regenerated skeleton facts + hook-trace inclusion"},
+ {"property_id": "C15",
+  "text": "Theorems: once the connection has ended every started handler sees its context cancelled (contexts derive from the connection's; "
+          "the sweep additionally cancels every registered call), the end is permanent and no handler starts afterwards; over the goroutine "
+          "model of one connection every step after the exit strictly decreases a rank and, while anything is left, some step is enabled "
+          "(a reader holding a message notices exiting, a blocked NextReader fails once the socket is closed, a writer that cannot get a "
+          "message writer releases its handler): every maximal run ends with no library goroutine left. Tie: regenerated skeletons "
+          "(handleCall, lazyWriter.Write, nextWriter, nextMessage, readFrame, setupPings) + scenarios over end cause x reaction time with five "
+          "kinds of handler in progress and the gated reader-hand-off schedule: captured contexts must be cancelled, the goroutine profile "
+          "filtered by the connection's pprof labels must drain, and the server connection's trace is replayed through Jrpc.Cancel.",
+  "design_ref": "DESIGN.md §6 C15",
+  "note": TB + " The goroutine model is tied by skeleton facts and profile observation, not by trace replay.",
+  "technique": "Lean 4 theorems (context derivation, ranking function + progress over the goroutine model) + regenerated skeleton facts + goroutine-profile observation + hook-trace inclusion"},
 ]
 
 _PENDING = "check under construction in this round (see DESIGN.md §13 build order); not claimed until its theorem file, tie and unchanged-tree sweep exist"
